@@ -65,7 +65,7 @@ impl Plan {
 }
 
 /// structural giants appended after the corpus bases (see giants.rs)
-pub const GIANT_BASES: u64 = 9;
+pub const GIANT_BASES: u64 = 10;
 
 pub const MEM_FIXED: u64 = 64 * 1024 * 1024;
 pub const MEM_PER_BYTE: u64 = 8192;
@@ -145,6 +145,7 @@ pub fn inputs_of_base(plan: &Plan, b: u64, corpus: &[(String, Vec<u8>)]) -> Vec<
         }
         _ => {
             out.extend(hostile::field_inputs(&base, false));
+            out.extend(hostile::string_inputs(&base));
         }
     }
     out.extend(hostile::multi_field_inputs(&base, &mut rng, if thorough { 120 } else { 40 }));
@@ -383,11 +384,17 @@ pub fn worker_main(ctx: &Ctx, a: WorkerArgs) -> i32 {
                 }
                 return;
             }
+            // ASEMON_SUB_SAMPLE=k: only every k-th derived input of each base (indices keep their meaning; the
+            // unmodified base itself always runs) - spreads a slow build's share over many bases and workers
+            let sub_sample: u64 = std::env::var("ASEMON_SUB_SAMPLE").ok().and_then(|x| x.parse().ok()).unwrap_or(1).max(1);
             while b < total {
                 let inputs = inputs_of_base(&plan, b, &corpus);
                 let start = if first_base { a.resume_sub } else { 0 };
                 first_base = false;
                 for (s, input) in inputs.iter().enumerate().skip(start as usize) {
+                    if sub_sample > 1 && s != 0 && (s as u64 + b) % sub_sample != 0 {
+                        continue;
+                    }
                     {
                         let mut o = out.lock();
                         let _ = writeln!(o, "B {} {}", b, s);
